@@ -57,6 +57,15 @@ class Pool(object):
         self.val["A"] = m[4]
         self.obj["R"] = ec.INFINITY
         self.val["R"] = None
+        # F: an unscaled point on ANOTHER curve (different field prime) with
+        # the same Z as P - results must not leak between curves
+        t2 = foreign_toy(t)
+        self.t2 = t2
+        self.curvefp2 = t2.lib_curvefp()
+        m2 = t2.subgroup_multiples()
+        self.F = ec.PointJacobi(self.curvefp2, m2[3][0] * 9 % t2.p,
+                                m2[3][1] * 27 % t2.p, 3, t2.n)
+        self.Fval = m2[3]
         g2 = ec.PointJacobi(self.curvefp, t.G[0], t.G[1], 1, n, generator=True)
         self.curve = curves.Curve("toy-c19", self.curvefp, g2,
                                   (1, 3, 9999, 19))
@@ -100,6 +109,13 @@ class Pool(object):
         return rc.add(a, b, self.t.p, self.t.a)
 
 
+def foreign_toy(t):
+    for c in catalog.all_toys():
+        if c.h == 1 and c.p != t.p and 17 <= c.p <= 31 and c.n >= 11:
+            return c
+    raise LookupError("no foreign toy curve")
+
+
 def point_key(ec, o):
     if o is ec.INFINITY:
         return ("INF",)
@@ -117,6 +133,7 @@ def point_key(ec, o):
 def canon(pool):
     ec = pool.ec
     k = [point_key(ec, pool.obj[s]) for s in POINT_SLOTS]
+    k.append(point_key(ec, pool.F))
     k.append(point_key(ec, pool.curve.generator))
     k.append(point_key(ec, pool.vk.pubkey.point))
     k.append(point_key(ec, pool.sk.verifying_key.pubkey.point))
@@ -159,6 +176,8 @@ def enabled_events(pool, menu):
             if kx == "J" and (menu >= 2 or x in ("G", "P", "H")):
                 for ab in (MULADD if menu >= 2 else MULADD[:3]):
                     ev.append(("mul_add", x, y, ab))
+    ev += [("f.xy",), ("f.scale",), ("f.mul", 3), ("f.pickle",),
+           ("vk.verify-sha256",), ("sk.sign-sha256",)]
     ev += [("vk.precompute", True), ("vk.precompute", False), ("vk.verify",),
            ("vk.to_string", "raw"), ("vk.to_string", "compressed"),
            ("vk.to_der",), ("sk.sign",), ("sk.to_der",), ("vk.pickle",),
@@ -167,11 +186,15 @@ def enabled_events(pool, menu):
     return ev
 
 
-def fixed_sig(pool):
+def fixed_sig(pool, hf=hashlib.sha1):
     from ecdsa import util
     tenv = pool.tenv
-    dg = hashlib.sha1(b"msg").digest()
-    rs = tenv.ref_sign(tenv.e_of(dg), 8, 3)
+    dg = hf(b"msg").digest()
+    rs = None
+    k = 3
+    while rs is None:                     # first nonce giving r, s != 0
+        rs = tenv.ref_sign(tenv.e_of(dg), 8, k)
+        k += 1
     return util.sigencode_string(rs[0], rs[1], tenv.n)
 
 
@@ -189,7 +212,8 @@ def fresh_expect(t):
             vk_raw=p.vk.to_string(), vk_comp=p.vk.to_string("compressed"),
             vk_der=p.vk.to_der(), sk_sig=p.sk.sign_deterministic(b"msg"),
             sk_der=p.sk.to_der(), sk_vk_raw=sk7_vk.to_string(),
-            sk_pem=p.sk.to_pem(), vk_hyb=p.vk.to_string("hybrid"))
+            sk_pem=p.sk.to_pem(), vk_hyb=p.vk.to_string("hybrid"),
+            sk_sig256=p.sk.sign_deterministic(b"msg", hashfunc=hashlib.sha256))
     return _FRESH[k]
 
 
@@ -253,7 +277,25 @@ def apply_event(pool, ev):
         exp = pool.vadd(pool.vmul(a, v[x]), pool.vmul(b, v[y]))
         o["R"], v["R"] = r, exp
         return (pool.aff(r), exp)
+    if kind == "f.xy":
+        return ((int(pool.F.x()), int(pool.F.y())), pool.Fval)
+    if kind == "f.scale":
+        r = pool.F.scale()
+        return ((r is pool.F, pool.aff(r)), (True, pool.Fval))
+    if kind == "f.mul":
+        r = pool.F * ev[1]
+        return (pool.aff(r), rc.mul(ev[1], pool.Fval, pool.t2.p, pool.t2.a))
+    if kind == "f.pickle":
+        pool.F = pickle.loads(pickle.dumps(pool.F))
+        return (pool.aff(pool.F), pool.Fval)
     fe = fresh_expect(pool.t)
+    if kind == "vk.verify-sha256":
+        # an explicit hash function for one call must not stick to the key
+        return (pool.vk.verify(fixed_sig(pool, hashlib.sha256), b"msg",
+                               hashfunc=hashlib.sha256), True)
+    if kind == "sk.sign-sha256":
+        return (pool.sk.sign_deterministic(b"msg", hashfunc=hashlib.sha256),
+                fe["sk_sig256"])
     if kind == "vk.precompute":
         pool.vk.precompute(lazy=ev[1])
         return (None, None)
@@ -330,6 +372,8 @@ def probe(pool):
             bad.append(("mul3", s, pool.aff(o[s] * 3), pool.vmul(3, v[s])))
         if pool.aff(o[s] + o["G"]) != pool.vadd(v[s], v["G"]):
             bad.append(("addG", s))
+    if pool.aff(pool.F) != pool.Fval:
+        bad.append(("foreign-point", pool.aff(pool.F), pool.Fval))
     if pool.vk.to_string() != fe["vk_raw"]:
         bad.append(("vk.to_string",))
     if pool.vk.to_string("hybrid") != fe["vk_hyb"]:
